@@ -29,6 +29,14 @@ structure HttpRequest where
   contentLength : Int
   deriving Inhabited
 
+/-- a `float64` as an opaque value: literals, `strconv.ParseFloat` and the comparisons are uninterpreted
+    operations of `Ext` (with NaN they are no order); the carrier is `Int` only so that models can instantiate
+    them with exact fixed-point numbers -/
+abbrev GoFloat := Int
+
+/-- an `EntityReaderWriter` (an interface value the package only passes on): identified by a number -/
+abbrev GoAccessor := Nat
+
 /-- what the package reads of an `http.ResponseWriter` before writing: `.Header().Get(key)` -/
 structure HttpWriter where
   header : Str → Str
